@@ -66,6 +66,10 @@ void __sym_check(int cond, const char* msg) { if (!cond) __sym_fail(msg); }
 static char wd_msg[200];
 static void on_wd(int) { printf("REPLAY-FAIL %s\n", wd_msg); fflush(stdout); _Exit(1); }
 void __sym_watchdog(double s, const char* msg) { snprintf(wd_msg, sizeof wd_msg, "%s", msg ? msg : "no termination"); struct itimerval it; memset(&it, 0, sizeof it); it.it_value.tv_sec = (long)s; it.it_value.tv_usec = (long)((s - (long)s) * 1e6); signal(SIGVTALRM, on_wd); setitimer(ITIMER_VIRTUAL, &it, 0); }
+static int upos = 0;
+double __sym_uniform01(void) { ensure(); std::string k = "u!" + std::to_string(upos++); auto it = g_double.find(k); if (it == g_double.end()) { printf("REPLAY-NOTE uniform draw %s not in model, using 0.5\n", k.c_str()); return 0.5; } return it->second; }
+void __sym_uniform_rewind(void) { upos = 0; }
+int __sym_uniform_count(void) { return upos; }
 void __sym_note(const char*) {}
 void __sym_label(const char*) {}
 int __sym_is_symbolic(double) { return 0; }
